@@ -1,6 +1,7 @@
 from __future__ import annotations
 
 from abc import ABC, abstractmethod
+import copy
 import re
 import types
 from typing import (
@@ -515,7 +516,9 @@ class SigmaExpandModifier(
     def modify(
         self, val: SigmaString | SigmaRegularExpression
     ) -> SigmaString | SigmaRegularExpression:
-        return val.insert_placeholders()
+        # insert_placeholders() changes its object in place: work on a copy, the given value is
+        # still referenced as original value of the detection item and must stay as written.
+        return copy.deepcopy(val).insert_placeholders()
 
 
 class SigmaTimestampModifier(SigmaValueModifier[SigmaNumber, SigmaTimestampPart]):
